@@ -2,9 +2,11 @@
 // `@derive_expanded.rs` is produced on every run by expanding fixtures/derive_fix with the
 // proc-macro crate from /repo (cargo +nightly rustc -- -Zunpretty=expanded).
 //@ rule R13
+//@ rule R14
 #![feature(allocator_api)]
 #![allow(unused_imports, unused_variables, dead_code, non_snake_case)]
 use vstd::prelude::*;
+use vstd::string::StringSliceAdditionalSpecFns;
 use vstd::std_specs::convert::*;
 use std::io;
 use std::rc::Rc;
